@@ -2,12 +2,15 @@
     statements).  partial: the theorems characterise the marker mechanism for ANY layers and any
     later history (a present marker hides the path from every observation; distinct paths have
     distinct markers; the bookkeeping directory is never listed; a listed marker is subtracted from
-    its directory's listing); that removal sets the marker and re-creation clears it is part of the
-    model programs ([set_whiteout], [clear_whiteout]) checked by the correspondence runs. *)
+    its directory's listing); and, on an overlay of two MemoryFS layers with arbitrary contents, the
+    life cycle itself: removing a file that exists only in the lower layer sets its marker (and
+    changes nothing else: the lower layer not at all), after which the overlay does not see it;
+    re-creating a deleted top-level file removes the marker and yields an empty file, whatever the
+    lower layer holds.  Directories, subtrees and deeper re-creations are decided by the correspondence. *)
 From stdpp Require Import gmap list.
 From Coq Require Import NArith ZArith.
-From VFS Require Import Core.Types Core.Prog Core.Calls Base.MemFS Layer.VfsPath Layer.Overlay
-  Proofs.Leaves Proofs.OvlProofs.
+From VFS Require Import Core.Types Core.Prog Core.Calls Base.MemFS Base.Handles Base.Store Layer.VfsPath Layer.Overlay
+  Proofs.Leaves Proofs.MemProofs Proofs.ConcProofs Proofs.OvlProofs Proofs.OvlList Proofs.OvlLife.
 
 (** while the marker of a path is present the path is absent from exists, metadata, open_file and
     read_dir - for every handler (so for all layer contents and all later histories that keep the marker) *)
@@ -43,6 +46,43 @@ Theorem C10_listing_subtracts : forall (entries : list (list N)) (markers : list
                         end) entries markers.
 Proof. exact subtract_markers. Qed.
 
+(** removal sets the marker: a file present only in the lower layer, removed through the overlay *)
+Theorem C10_removal_sets_marker : forall lg ft (s0 s1 : gmap (list (list N)) memfile) hs (p : path),
+  wf s0 -> p <> [] ->
+  s0 !! whiteout_path (v0, []) p = None -> s0 !! p = None -> is_Some (s1 !! p) ->
+  Forall (not_file s0) (prefixes (removelast (whiteout_path (v0, []) p))) ->
+  exists s0',
+    run bhandler (ovl_impl (v0, []) [(v1, [])] (CRemoveFile p)) (mstore2 s0 s1 hs lg ft) =
+      (mstore2 s0' s1 (hs ++ [HClosed]) lg ft, Ok tt) /\
+    is_Some (s0' !! whiteout_path (v0, []) p) /\
+    (forall q, q ∉ prefixes (whiteout_path (v0, []) p) -> s0' !! q = s0 !! q) /\
+    wf s0'.
+Proof. exact remove_lower_file_sets_marker. Qed.
+
+(** and from then on the overlay does not see the file although the lower layer still has it *)
+Theorem C10_removed_is_absent : forall lg ft (s1 s0' : gmap (list (list N)) memfile) (hs' : list hstate) (p : path),
+  p <> [] -> is_Some (s0' !! whiteout_path (v0, []) p) ->
+  run bhandler (ovl_exists (v0, []) [(v1, [])] p) (mstore2 s0' s1 hs' lg ft) = (mstore2 s0' s1 hs' lg ft, Ok false) /\
+  run bhandler (ovl_metadata (v0, []) [(v1, [])] p) (mstore2 s0' s1 hs' lg ft) = (mstore2 s0' s1 hs' lg ft, fail ENotFound).
+Proof. exact removed_file_is_absent. Qed.
+
+(** re-creation starts fresh: creating a deleted top-level file removes its marker and yields an
+    empty file in the upper layer *)
+Theorem C10_recreation_clears_marker : forall lg ft (s0 s1 : gmap (list (list N)) memfile) hs (n : list N) g,
+  wf s0 -> s0 !! whiteout_path (v0, []) [] = None ->
+  s0 !! whiteout_path (v0, []) [n] = Some g -> f_type g = File -> s0 !! [n] = None ->
+  run bhandler (ovl_impl (v0, []) [(v1, [])] (CCreateFile [n])) (mstore2 s0 s1 hs lg ft) =
+  (mstore2 (delete (whiteout_path (v0, []) [n]) (<[[n] := mkMemFile File [] TAuto (Some TAuto) (Some TAuto)]> s0)) s1
+           (hs ++ [HMemWriter 0 [n] [] 0]) lg ft, Ok (length hs)).
+Proof. exact recreate_clears_marker. Qed.
+
+Theorem C10_recreated_file_is_fresh : forall lg ft (s0 s1 : gmap (list (list N)) memfile) hs (n : list N) g,
+  s0 !! whiteout_path (v0, []) [n] = Some g ->
+  let s0' := delete (whiteout_path (v0, []) [n]) (<[[n] := mkMemFile File [] TAuto (Some TAuto) (Some TAuto)]> s0) in
+  run bhandler (ovl_metadata (v0, []) [(v1, [])] [n]) (mstore2 s0' s1 hs lg ft) =
+  (mstore2 s0' s1 hs lg ft, Ok (mem_meta (mkMemFile File [] TAuto (Some TAuto) (Some TAuto)))).
+Proof. exact recreated_file_is_fresh. Qed.
+
 Example C10_example :
   whiteout_path (v0, [[117%N]]) [[97%N]; [98%N]] = [[117%N]; whiteout_name; [97%N]; [98%N; 95%N; 119%N; 111%N]] /\
   whiteout_path (v0, []) [] = [whiteout_name; wo_suffix].
@@ -53,3 +93,7 @@ Print Assumptions C10_marker_injective.
 Print Assumptions C10_bookkeeping_hidden.
 Print Assumptions C10_listing_subtracts.
 Print Assumptions C10_example.
+Print Assumptions C10_removal_sets_marker.
+Print Assumptions C10_removed_is_absent.
+Print Assumptions C10_recreation_clears_marker.
+Print Assumptions C10_recreated_file_is_fresh.
